@@ -339,7 +339,8 @@ def reference_crawl(site, starts, opts, own_hosts, allow=None):
             continue
         root = rec['root'] or urld(res)
         children = [(dst, None) for dst, sp in (doc.links if not doc.nofollow else [])]
-        children += [(dst, (rec['inline_level'] or 0) + 1) for dst, sp, tag in doc.inlines]
+        # (a frame is an embedded object AND a link to an HTML document: a page that declares nofollow does not have it followed)
+        children += [(dst, (rec['inline_level'] or 0) + 1) for dst, sp, tag in doc.inlines if not (doc.nofollow and tag in ('iframe', 'embed'))]
         for dst, il in children:
             child = {'res': dst, 'level': rec['level'] + 1, 'inline_level': il, 'parent': urld(res), 'root': root, 'try_count': 0}
             if not _record_rules_pass(child, opts):
